@@ -278,8 +278,7 @@ func (d *Decoder) readObjectDef() (interface{}, error) {
 
 	tag, err := d.readTag()
 	if err != nil {
-		hlog.Debugf("reading tag err:%v", err)
-		return nil, nil //ignore
+		return nil, newCodecError("readObjectDef", "reading tag", err)
 	}
 
 	if objectLenTag(tag) {
